@@ -192,6 +192,8 @@ def run(index: RepoIndex, rep) -> None:
                         and (not v.args or src(v.args[0]) == '0') and len(v.args) <= 1 \
                         and not v.keywords and not augs:
                     counters[nm] = ('iter', [])
+        if not counters and enumerate_style(index, rep, c, init, node, w, rel):
+            continue
         rep.check(len(counters) == 1, 'C16.R6',
                   rel, f'{c.name}.__init__', init.node.lineno, str(sorted(counters)),
                   'the compact counter does not start at 0 (once, outside the loops)',
@@ -270,6 +272,86 @@ def run(index: RepoIndex, rep) -> None:
                       rel, fn, f.node.lineno, src(b[-1]),
                       f'{fn} does not sort by index (the compact numbering would depend on '
                       f'hash order)', f'{fn} sorted by index')
+
+
+def enumerate_style(index, rep, c, init, node, w, rel) -> bool:
+    """third spelling of the fresh counter: the three maps are filled from
+    `for k, item in enumerate(L_i, start=S_i)` with S_1 = 0, S_2 = len(L_1),
+    S_3 = len(L_1) + len(L_2), the lists being the sorted types, the (type, status) pairs and
+    the sorted colours.  Returns False when the constructor is not written this way."""
+    from ..affine import Aff, NonAffine, aff_of
+    stores = []
+    for e in w.events:
+        if e.kind == 'store' and isinstance(e.target, ast.Subscript) and \
+                isinstance(e.value, ast.Name) and e.loops:
+            t, it = e.loops[-1]
+            if isinstance(it, ast.Call) and src(it.func) == 'enumerate' and it.args and \
+                    isinstance(t, ast.Tuple) and len(t.elts) == 2 and \
+                    src(t.elts[0]) == e.value.id:
+                kw = {k.arg: k.value for k in it.keywords}
+                start = kw.get('start', it.args[1] if len(it.args) > 1 else ast.Constant(0))
+                stores.append((e, it.args[0], start, t.elts[1]))
+    if len(stores) != 3:
+        return False
+    name = f'{c.name}.__init__'
+
+    def lens(e: ast.AST) -> Aff:
+        def leaf(x):
+            if isinstance(x, ast.Call) and src(x.func) == 'len' and len(x.args) == 1:
+                return Aff.sym('len:' + src(w.expand(x.args[0], stop=list(w.defs))))
+            if isinstance(x, ast.Name):
+                d = w.single_def(x.id)
+                if d is not None and d[0] == 'value':
+                    return aff_of(d[1], leaf)
+            return None
+        return aff_of(e, leaf)
+    try:
+        starts = [lens(st) for _, _, st, _ in stores]
+        L = [Aff.sym('len:' + src(lst)) for _, lst, _, _ in stores]
+        ok = starts[0] == Aff.const(0) and starts[1] == L[0] and starts[2] == L[0] + L[1]
+    except NonAffine:
+        ok = False
+    rep.check(ok, 'C16.R6', rel, name, init.node.lineno,
+              '; '.join(src(st) for _, _, st, _ in stores),
+              'the three enumerations do not start at 0, len(first), len(first) + len(second): '
+              'compact values would repeat or leave gaps', f'{c.name} counter from 0')
+    rep.holds('C16.R6', f'{rel}:{name}', 'three map stores (enumerate style)')
+
+    def list_kind(lst: ast.AST) -> str:
+        v = w.expand(lst)
+        if isinstance(v, ast.ListComp):
+            its = [src(w.expand(g.iter)) for g in v.generators]
+            if len(its) == 1 and its[0].startswith('_sorted_object_types(') and \
+                    src(v.elt).endswith('.type_index()'):
+                return 'types'
+            if len(its) == 1 and its[0].startswith('_sorted_colors(') and \
+                    src(v.elt).endswith('.value'):
+                return 'colours'
+            if len(its) == 2 and its[0].startswith('_sorted_object_types(') and \
+                    re.fullmatch(r'range\(\w+\.num_states\(\)\)', its[1]) and \
+                    isinstance(v.elt, ast.Tuple) and len(v.elt.elts) == 2 and \
+                    src(v.elt.elts[0]).endswith('.type_index()') and \
+                    src(v.elt.elts[1]) == src(v.generators[1].target):
+                return 'states'
+        return '?'
+    kinds = [list_kind(lst) for _, lst, _, _ in stores]
+    rep.check(kinds == ['types', 'states', 'colours'], 'C16.R6', rel, name, init.node.lineno,
+              '; '.join(src(lst) for _, lst, _, _ in stores),
+              'the compact maps are not filled over the sorted types, range(num_states()) '
+              'and sorted colours', f'{c.name} iteration orders')
+    want = {'types': 'self._grid_object_type_map', 'states': 'self._grid_object_status_map',
+            'colours': 'self._grid_object_color_map'}
+    okm = True
+    for (e, _, _, item), k in zip(stores, kinds):
+        okm = okm and src(e.target.value) == want.get(k) and \
+            src(e.target.slice) in (src(item), src(item).strip('()'))
+    rep.check(okm, 'C16.R6', rel, name, init.node.lineno,
+              '; '.join(src(e.stmt) for e, _, _, _ in stores),
+              'the enumerated indices are not stored at their own (type / (type, status) / '
+              'colour) position of the three maps', f'{c.name} maps installed')
+    for i in range(3):
+        rep.holds('C16.R6', f'{rel}:{name}:{i}', 'consecutive by enumerate')
+    return True
 
 
 def _tuple_item(w, attr: str, local: str) -> bool:
